@@ -2,7 +2,7 @@
    (table obligations and concrete witnesses by vm_compute). *)
 From Coq Require Import ZArith QArith List Bool Permutation.
 From RV Require Import Base.PyNum Base.Bytes Formats.O2J Formats.O2JSpec Generated.Tables Proofs.O2JProofs Proofs.O2JHeaderProofs
-  Proofs.O2JParseProofs Proofs.O2JComposeProofs.
+  Proofs.O2JParseProofs Proofs.O2JComposeProofs Proofs.O2JCompleteProofs.
 Import ListNotations.
 Open Scope Q_scope.
 
@@ -117,6 +117,46 @@ Proof. exact tempo_time_is_integral. Qed.
 Theorem C07_specb_sound : forall tol f out, specb tol f out = true -> OjnSpec tol f out.
 Proof. exact specb_sound. Qed.
 
+(* ... and is COMPLETE (decides it) at tolerance 0 -- the exact stream of the harness -- and, for any tolerance,
+   whenever the rows the FILE denotes are separated (decidable guard on the denotation only: rows that agree on
+   column/volume/pan [tempo] are pointwise equal or more than 2 tol apart in time [4 tol in length]).  Without
+   the guard it is NOT complete (greedy matcher, closeness is not transitive): refuted at tolerance 1 by two
+   taps 1 ms apart against an output at +1 / -1 ms.  An incompleteness of the ORACLE is a possible false alarm,
+   never a missed violation (C07_specb_sound); it is not a defect of the reader ---- *)
+Theorem C07_specb_complete : forall f out, OjnSpec 0 f out -> specb 0 f out = true.
+Proof. exact specb_complete_exact. Qed.
+Theorem C07_specb_complete_separated : forall tol f out d,
+  ojn_denote f = Some d -> den_separated tol d = true -> OjnSpec tol f out -> specb tol f out = true.
+Proof. exact specb_complete_separated. Qed.
+Theorem C07_den_separated_at_0 : forall d, den_separated 0 d = true.
+Proof. exact den_separated_0. Qed.
+Theorem C07_specb_complete_refuted :
+  exists f o, wf_file f = true /\ OjnSpec 1 f (Some o) /\ specb 1 f (Some o) = false.
+Proof. exact specb_complete_refuted. Qed.
+Theorem C07_specb_complete_refuted_witness :
+  wf_file w_greedy = true
+  /\ exists d o, ojn_denote w_greedy = Some d
+       /\ map om_hits (os_maps d) = [[mkHit 0 0 0 0; mkHit 0 1 0 0]; []; []]
+       /\ map om_hits (os_maps o) = [[mkHit 0 1 0 0; mkHit 0 (-1) 0 0]; []; []]
+       /\ OjnSpec 1 w_greedy (Some o) /\ specb 1 w_greedy (Some o) = false
+       /\ den_separated 1 d = false.
+Proof. exact specb_complete_refuted_witness. Qed.
+
+(* ---- the ONE hold buffer of the file (threaded through all packages AND all difficulties): on well-formed
+   files the reader equals the reader that gives every difficulty a fresh buffer (sharing unobservable); on a
+   malformed file it is observable: a head left open in difficulty 0 is closed by a tail in difficulty 1
+   (outside the property's domain; the harness's malformed stream checks it by correspondence) ---- *)
+Theorem C07_hold_buffer_sharing_unobservable : forall f trail, wf_file f = true ->
+  read_fixed (encode_file f ++ trail) = read_fresh (encode_file f ++ trail).
+Proof. exact (ojn_hold_buffer_sharing_unobservable C07_layout_is_reference). Qed.
+Theorem C07_open_head_closed_in_next_difficulty :
+  wf_file w_leak = false
+  /\ (exists o, read_fixed (encode_file w_leak) = Some o
+        /\ map om_holds (os_maps o) = [[]; [mkHold 0 0 2000 0 0]; []]
+        /\ map om_hits (os_maps o) = [[]; []; []])
+  /\ read_fresh (encode_file w_leak) = None.
+Proof. exact ojn_open_head_closed_in_next_difficulty. Qed.
+
 (* ---- the OLD reader (read_old: the tree before 9171148 / d4c1412, kept only for this): refuted, with the
         witnesses that are replayed on the implementation on every run (corpus/C07/w_*.json) ---- *)
 Theorem C07_ojn_tempo_times_refuted :
@@ -162,4 +202,11 @@ Example C07_nontrivial_file :
   /\ specb 0 ex_file (read_fixed (encode_file ex_file ++ [1; 2; 3]%Z)) = true
   /\ length (encode_file ex_file) = (300 + 8 * 10 + 4 * (1 + 4 + 7 + 3 + 192 + 5 + 2 + 2 + 6 + 1))%nat
   /\ option_map (fun o => oh_title (os_hdr o)) (read_fixed (encode_file ex_file)) = Some [116]%Z.
+Proof. vm_compute. auto. Qed.
+
+(* the separation guard of C07_specb_complete_separated is satisfiable on that file at the tolerance of the
+   rounded stream, and the oracle accepts the reader's output there *)
+Example C07_separated_nontrivial :
+  match ojn_denote ex_file with Some d => den_separated (1 # 1000000) d | None => false end = true
+  /\ specb (1 # 1000000) ex_file (read_fixed (encode_file ex_file)) = true.
 Proof. vm_compute. auto. Qed.
